@@ -152,4 +152,133 @@ theorem hashmapK {rd X w} (h : Refines rd X w) (n : Nat) (s : Frag) (v : Val) (s
   have := dictWalkInline_sound X rd w h n s v s' hd
   simp [Rd.loadHashmap, this]
 
+/-! ### `Slice.load_hashmap_aug_e` : `HashmapAugE n X Y` -/
+
+theorem get_extra_value_v (e v : Val) : (Val.record [("extra", e), ("value", v)]).get "value" = v := by
+  simp [Val.get, List.lookup]
+theorem get_extra_value_e (e v : Val) : (Val.record [("extra", e), ("value", v)]).get "extra" = e := by
+  simp [Val.get, List.lookup]
+theorem get_lre_l (a b e : Val) : (Val.record [("left", a), ("right", b), ("extra", e)]).get "left" = a := by
+  simp [Val.get, List.lookup]
+theorem get_lre_r (a b e : Val) : (Val.record [("left", a), ("right", b), ("extra", e)]).get "right" = b := by
+  simp [Val.get, List.lookup]
+theorem get_lre_e (a b e : Val) : (Val.record [("left", a), ("right", b), ("extra", e)]).get "extra" = e := by
+  simp [Val.get, List.lookup]
+
+/-- the augmented walk returns the entries and the extras of the decoded tree value -/
+theorem augWalk_sound (X Y : Codec) (Q : Val → Prop) (x y : Frag → Rd.R) (wx wy : Val → Val)
+    (hx : ∀ s v, X.dec s = some (v, ⟨[], []⟩) → Q v → ∃ k, x s = some (wx v, k))
+    (hy : Refines y Y wy) :
+    ∀ fuel n pfx b r tv, (hashmapAugF X Y fuel n).dec ⟨b, r⟩ = some (tv, ⟨[], []⟩) →
+      (∀ p ∈ flattenAug id fuel n pfx tv, Q p.2) →
+      Rd.augWalk x y fuel n pfx (Cell.mk false b r) = some (flattenAug wx fuel n pfx tv, extrasAug wy fuel n tv) := by
+  intro fuel
+  induction fuel with
+  | zero => intro n pfx b r tv h; simp [hashmapAugF, failC] at h
+  | succ fuel ih =>
+    intro n pfx b r tv h hq
+    simp only [hashmapAugF, recd_dec, fld, dep, decFields_cons, decFields_nil] at h
+    obtain ⟨vs, ⟨lv, s1, hl, vs', ⟨nv, s2, hn, vs'', ⟨rfl, rfl⟩, rfl⟩, rfl⟩, rfl⟩ := h
+    have hget : Env.get [("label", lv)] "label" = lv := by simp [Env.get, List.lookup]
+    rw [hget] at hn
+    simp only [flattenAug, extrasAug, get_label, get_node, id] at hq ⊢
+    simp only [Rd.augWalk, Cell.bits, Cell.refs, hl]
+    unfold ahmNode at hn
+    by_cases hle : labelLen lv ≤ n
+    · simp only [hle, if_true] at hn
+      by_cases hz : n - labelLen lv = 0
+      · simp only [hz, if_true] at hn hq ⊢
+        simp only [recd_dec, fld, decFields_cons, decFields_nil] at hn
+        obtain ⟨vs, ⟨e, s3, he, vs', ⟨v, s4, hv, vs'', ⟨rfl, rfl⟩, rfl⟩, rfl⟩, rfl⟩ := hn
+        simp only [get_extra_value_v, get_extra_value_e] at hq ⊢
+        obtain ⟨k, hk⟩ := hx _ _ hv (hq _ (List.mem_singleton.2 rfl))
+        simp [hy _ _ _ he, hk]
+      · simp only [hz, if_false] at hn hq ⊢
+        simp only [recd_dec, fld, decFields_cons, decFields_nil, ref_dec] at hn
+        obtain ⟨vs, ⟨a, s3, ⟨bs, b0, r0, more, rfl, ha, rfl⟩, vs', ⟨bb, s4, ⟨bs', b1, r1, more', hs, hb, rfl⟩, vs'',
+          ⟨e, s5, he, vs''', ⟨rfl, rfl⟩, rfl⟩, rfl⟩, rfl⟩, rfl⟩ := hn
+        simp only [Frag.mk.injEq] at hs
+        obtain ⟨rfl, rfl⟩ := hs
+        simp only [get_lre_l, get_lre_r, get_lre_e] at hq ⊢
+        have h1 := ih _ (pfx ++ Rd.labelBitsOf lv ++ [false]) _ _ _ ha
+          (fun p hp => hq p (List.mem_append.2 (Or.inl hp)))
+        have h2 := ih _ (pfx ++ Rd.labelBitsOf lv ++ [true]) _ _ _ hb
+          (fun p hp => hq p (List.mem_append.2 (Or.inr hp)))
+        simp only [List.append_assoc] at h1 h2 ⊢
+        simp [h1, h2, hy _ _ _ he]
+    · simp [hle, failC] at hn
+
+/-- the leaf values of an augmented dictionary value satisfy `Q` -/
+def AugLeaves (Q : Val → Prop) (n : Nat) : Val → Prop
+  | .con "ahme_root" r => ∀ p ∈ flattenAug id (n + 1) n [] (r.get "root"), Q p.2
+  | _ => True
+
+theorem get_root (t e : Val) : (Val.record [("root", t), ("extra", e)]).get "root" = t := by simp [Val.get, List.lookup]
+theorem get_root_extra (t e : Val) : (Val.record [("root", t), ("extra", e)]).get "extra" = e := by simp [Val.get, List.lookup]
+theorem get_extra1 (e : Val) : (Val.record [("extra", e)]).get "extra" = e := by simp [Val.get, List.lookup]
+
+/-- `S.load_hashmap_aug_e(n, x, y)` against `HashmapAugE n X Y` -/
+theorem RefinesEP.augE {Q x X wx y Y wy} (hx : RefinesEP Q x X wx) (hy : Refines y Y wy) (n : Nat) :
+    RefinesP (AugLeaves Q n) (Rd.loadHashmapAugE n x y false) (hashmapAugE n X Y) (viewAugE wx wy n) := by
+  intro s v s' hd hp
+  obtain ⟨bits, refs⟩ := s
+  simp only [hashmapAugE, tagged_dec, decAlts_cons, decAlts_nil, recd_dec, fld, decFields_cons, decFields_nil, ref_dec, hashmapAug,
+    withGen_dec] at hd
+  obtain ⟨_, hd⟩ := hd
+  rcases hd with ⟨t, rs, hs, xx, ⟨vs, ⟨e, s1, he, vs', ⟨rfl, rfl⟩, rfl⟩, rfl⟩, rfl⟩ |
+    ⟨_, ⟨t, rs, hs, xx, ⟨vs, ⟨tv, s1, ⟨bs, b, r, more, hs2, hx', rfl⟩, vs', ⟨e, s2, he, vs'', ⟨rfl, rfl⟩, rfl⟩, rfl⟩, rfl⟩, rfl⟩ | ⟨_, hf⟩⟩
+  rotate_left 2
+  · exact hf.elim
+  · simp only [Frag.mk.injEq] at hs
+    obtain ⟨rfl, rfl⟩ := hs
+    simp [Rd.loadHashmapAugE, loadBit_cons, Rd.truthy, viewAugE, hy _ _ _ he, get_extra1]
+  · simp only [Frag.mk.injEq] at hs hs2
+    obtain ⟨rfl, rfl⟩ := hs
+    obtain ⟨rfl, rfl⟩ := hs2
+    simp only [AugLeaves, get_root] at hp
+    have := augWalk_sound X Y Q x y wx wy (fun s v hd hq => hx s v _ hd hq) hy (n + 1) n [] b r tv hx' hp
+    simp [Rd.loadHashmapAugE, loadBit_cons, Rd.truthy, loadRef_cons, Cell.exotic, this, viewAugE, hy _ _ _ he, get_root]
+
+theorem RefinesEP.augET {x X wx y Y wy} (hx : RefinesEP PT x X wx) (hy : Refines y Y wy) (n : Nat) :
+    RefinesP PT (Rd.loadHashmapAugE n x y false) (hashmapAugE n X Y) (viewAugE wx wy n) :=
+  (RefinesEP.augE hx hy n).mono (fun v _ => by unfold AugLeaves; split <;> simp)
+
+theorem noVar_flattenAug (fuel n : Nat) (pfx : Bits) (tv : Val) (h : tv.noVar = true) :
+    ∀ p ∈ flattenAug id fuel n pfx tv, p.2.noVar = true := by
+  induction fuel generalizing n pfx tv with
+  | zero => intro p hp; simp [flattenAug] at hp
+  | succ fuel ih =>
+    intro p hp
+    simp only [flattenAug] at hp
+    split at hp
+    · simp only [List.mem_singleton] at hp
+      subst hp
+      exact noVar_get _ _ (noVar_get _ _ h)
+    · rcases List.mem_append.1 hp with hp | hp
+      · exact ih _ _ _ (noVar_get _ _ (noVar_get _ _ h)) p hp
+      · exact ih _ _ _ (noVar_get _ _ (noVar_get _ _ h)) p hp
+
+theorem augLeaves_of_noVar (n : Nat) (v : Val) (h : v.noVar = true) : AugLeaves PV n v := by
+  unfold AugLeaves
+  split
+  · rename_i r
+    simp only [Val.noVar, Bool.and_eq_true] at h
+    exact noVar_flattenAug _ _ _ _ (noVar_get _ _ h.2)
+  · trivial
+
+theorem RefinesEP.augEV {x X wx y Y wy} (hx : RefinesEP PV x X wx) (hy : Refines y Y wy) (n : Nat) :
+    RefinesP PV (Rd.loadHashmapAugE n x y false) (hashmapAugE n X Y) (viewAugE wx wy n) :=
+  (RefinesEP.augE hx hy n).mono (augLeaves_of_noVar n)
+
+/-- `HashmapAugE n X Y` read by `Rd.loadHashmapAugE n x y` -/
+theorem augK {x X wx y Y wy} (hx : Refines x X wx) (hy : Refines y Y wy) (n : Nat) (s : Frag) (v : Val) (s' : Frag) :
+    ((hashmapAugE n X Y).dec s = some (v, s')) ↔
+      (Kept (hashmapAugE n X Y) s v s' ∧ Rd.loadHashmapAugE n x y false s = some (viewAugE wx wy n v, s')) :=
+  ⟨fun hd => ⟨hd, (RefinesEP.augET (hx.toP PT).toE hy n) s v s' hd trivial⟩, fun hd => hd.1⟩
+
+theorem augKV {x X wx y Y wy} (hx : RefinesEP PV x X wx) (hy : Refines y Y wy) (n : Nat) (s : Frag) (v : Val) (s' : Frag) :
+    ((hashmapAugE n X Y).dec s = some (v, s')) ↔
+      (Kept (hashmapAugE n X Y) s v s' ∧ (v.noVar = true → Rd.loadHashmapAugE n x y false s = some (viewAugE wx wy n v, s'))) :=
+  ⟨fun hd => ⟨hd, (RefinesEP.augEV hx hy n) s v s' hd⟩, fun hd => hd.1⟩
+
 end TonVerif.Tlb.Blk
